@@ -3,3 +3,11 @@
 
 def evaluate_sizes(case, ctr, rng):
     return [], []
+
+
+def evaluate_addr(case, ctr, rng):
+    return [], []
+
+
+def evaluate_fee(case, ctr, rng):
+    return [], []
